@@ -941,4 +941,166 @@ theorem or_hostmask (n : Net) (h : n.WF) : n.addr ||| n.hostmask = n.bcast := by
   rw [ha, Net.size, Nat.mul_comm a]
   exact this.symm
 
+/-! round 2: containment is a partial order on well-formed networks; boundary prefixes -/
+theorem contains_refl (n : Net) : contains n (.net n) = true := by
+  simp [contains, supernetOf]
+
+theorem contains_trans (a b c : Net) (h1 : contains a (.net b) = true) (h2 : contains b (.net c) = true) :
+    contains a (.net c) = true := by
+  simp only [contains, supernetOf_iff] at *
+  omega
+
+theorem contains_trans_addr (a b : Net) (ha : a.WF) (hb : b.WF) (ip : Nat)
+    (h1 : contains a (.net b) = true) (h2 : contains b (.addr4 ip) = true) : contains a (.addr4 ip) = true := by
+  simp only [contains] at *
+  rw [addrIn_iff a ha]; rw [addrIn_iff b hb] at h2; rw [supernetOf_iff] at h1
+  omega
+
+theorem contains_antisymm (a b : Net) (ha : a.WF) (hb : b.WF)
+    (h1 : contains a (.net b) = true) (h2 : contains b (.net a) = true) : a = b := by
+  simp only [contains, supernetOf_iff] at h1 h2
+  have hadd : a.addr = b.addr := by omega
+  have hbc : a.bcast = b.bcast := by omega
+  have hs : a.size = b.size := by
+    have p1 := a.size_pos; have p2 := b.size_pos
+    simp only [Net.bcast, Net.hostmask] at hbc; omega
+  have hl : a.len = b.len := by
+    have : 32 - a.len = 32 - b.len :=
+      Nat.pow_right_injective (Nat.le_refl 2) (by simpa only [Net.size] using hs)
+    have h3 := ha.1; have h4 := hb.1
+    omega
+  cases a; cases b; simp_all
+
+/-- `0.0.0.0/0` contains every IPv4 address and every well-formed network -/
+theorem default_route_contains (x : Net) (hx : x.WF) (ip : Nat) (hip : ip < 2 ^ 32) :
+    contains ⟨0, 0⟩ (.net x) = true ∧ contains ⟨0, 0⟩ (.addr4 ip) = true := by
+  have hwf : (⟨0, 0⟩ : Net).WF := by simp [Net.WF, Net.size]
+  constructor
+  · simp only [contains, supernetOf_iff, Net.bcast, Net.hostmask, Net.size]
+    obtain ⟨h1, h2, h3⟩ := hx
+    have hp : 2 ^ (32 - x.len) ≤ 2 ^ 32 := Nat.pow_le_pow_right (by omega) (by omega)
+    have hpos : 0 < 2 ^ (32 - x.len) := Nat.two_pow_pos _
+    refine ⟨Nat.zero_le _, ?_⟩
+    -- x.addr is a multiple of the block size below 2^32, so the block ends below 2^32
+    obtain ⟨k, hk⟩ := aligned_mul h3
+    simp only [Net.size] at hk
+    have hd : 2 ^ (32 - x.len) ∣ 2 ^ 32 := Nat.pow_dvd_pow 2 (by omega)
+    obtain ⟨m, hm⟩ := hd
+    have hkm : k < m := by
+      have : k * 2 ^ (32 - x.len) < m * 2 ^ (32 - x.len) := by rw [← hk, Nat.mul_comm m]; omega
+      exact Nat.lt_of_mul_lt_mul_right this
+    have : (k + 1) * 2 ^ (32 - x.len) ≤ m * 2 ^ (32 - x.len) := Nat.mul_le_mul_right _ hkm
+    rw [Nat.add_mul] at this
+    rw [Nat.mul_comm m] at this
+    omega
+  · rw [show contains ⟨0, 0⟩ (.addr4 ip) = addrIn ip ⟨0, 0⟩ from rfl, addrIn_iff _ hwf]
+    simp [Net.bcast, Net.hostmask, Net.size]; omega
+
+/-- a `/32` network contains exactly its own address … -/
+theorem host_route_addr (n : Net) (hn : n.WF) (h32 : n.len = 32) (ip : Nat) :
+    contains n (.addr4 ip) = true ↔ ip = n.addr := by
+  rw [show contains n (.addr4 ip) = addrIn ip n from rfl, addrIn_iff n hn]
+  simp [Net.bcast, Net.hostmask, Net.size, h32]; omega
+
+/-- … and, among well-formed networks, only itself -/
+theorem host_route_net (n x : Net) (hn : n.WF) (hx : x.WF) (h32 : n.len = 32)
+    (h : contains n (.net x) = true) : x = n := by
+  have hl := supernet_len n x hn hx h
+  have hx32 : x.len = 32 := by have := hx.1; omega
+  simp only [contains, supernetOf_iff, Net.bcast, Net.hostmask, Net.size, h32, hx32] at h
+  have : x.addr = n.addr := by simp at h; omega
+  cases x; cases n; simp_all
+
+/-! round 2: converse directions for `key` — what a result says about the tag list -/
+theorem key_some_sound {V} (tags : List (Tag V)) (k : Str) (v : V) (h : key tags k = .ok (some v)) :
+    ∃ pre t post, tags = pre ++ t :: post ∧ (∀ u ∈ pre, ∃ k', u.key = some k' ∧ k' ≠ k) ∧
+      t.key = some k ∧ t.value = some v := by
+  induction tags with
+  | nil => simp [key] at h
+  | cons t ts ih =>
+    simp only [key] at h
+    cases hk : t.key with
+    | none => simp [hk] at h
+    | some k' =>
+      simp only [hk] at h
+      by_cases he : k' = k
+      · simp only [he, if_true] at h
+        cases hv : t.value with
+        | none => simp [hv] at h
+        | some v' =>
+          simp only [hv] at h
+          refine ⟨[], t, ts, rfl, by simp, by rw [hk, he], ?_⟩
+          simp_all
+      · simp only [he, if_false] at h
+        obtain ⟨pre, t', post, e, hp, h1, h2⟩ := ih h
+        refine ⟨t :: pre, t', post, by rw [e]; rfl, ?_, h1, h2⟩
+        intro u hu
+        rcases List.mem_cons.mp hu with rfl | hu
+        · exact ⟨k', hk, he⟩
+        · exact hp u hu
+
+theorem key_none_sound {V} (tags : List (Tag V)) (k : Str) (h : key tags k = .ok none) :
+    ∀ u ∈ tags, ∃ k', u.key = some k' ∧ k' ≠ k := by
+  induction tags with
+  | nil => simp
+  | cons t ts ih =>
+    simp only [key] at h
+    cases hk : t.key with
+    | none => simp [hk] at h
+    | some k' =>
+      simp only [hk] at h
+      by_cases he : k' = k
+      · simp only [he, if_true] at h
+        cases hv : t.value <;> simp [hv] at h
+      · simp only [he, if_false] at h
+        intro u hu
+        rcases List.mem_cons.mp hu with rfl | hu
+        · exact ⟨k', hk, he⟩
+        · exact ih h u hu
+
+/-! round 2: converse direction for `marked_key` — every non-null result comes from a `message:target` text whose target,
+stripped, is `action@date`; the message is everything before the LAST `:` and the action everything before the FIRST `@` -/
+theorem splitFirst_sound (sep : Nat) (s a b : Str) (h : splitFirst sep s = some (a, b)) :
+    s = a ++ sep :: b ∧ sep ∉ a := by
+  induction s generalizing a b with
+  | nil => simp [splitFirst] at h
+  | cons c r ih =>
+    simp only [splitFirst] at h
+    split at h
+    · rename_i hc; simp at h; obtain ⟨rfl, rfl⟩ := h; simp [hc]
+    · rename_i hc
+      split at h
+      · rename_i a' b' h'
+        simp at h; obtain ⟨rfl, rfl⟩ := h
+        obtain ⟨e, hn⟩ := ih a' b' h'
+        refine ⟨by rw [e]; rfl, ?_⟩
+        simp only [List.mem_cons, not_or]; exact ⟨fun x => hc x.symm, hn⟩
+      · simp at h
+
+theorem splitLast_sound (sep : Nat) (s a b : Str) (h : splitLast sep s = some (a, b)) :
+    s = a ++ sep :: b ∧ sep ∉ b := by
+  unfold splitLast at h
+  split at h
+  · rename_i x y h'
+    simp at h; obtain ⟨rfl, rfl⟩ := h
+    obtain ⟨e, hn⟩ := splitFirst_sound sep s.reverse x y h'
+    refine ⟨?_, by simpa using hn⟩
+    have := congrArg List.reverse e
+    simpa using this
+  · simp at h
+
+theorem marked_split_sound (v m a d : Str) (h : markedSplit v = some (m, a, d)) :
+    ∃ tgt, v = m ++ 58 :: tgt ∧ 58 ∉ tgt ∧ pyStrip tgt = a ++ 64 :: d ∧ 64 ∉ a := by
+  unfold markedSplit at h
+  split at h
+  · simp at h
+  · rename_i msg tgt h1
+    split at h
+    · simp at h
+    · rename_i act dt h2
+      simp at h; obtain ⟨rfl, rfl, rfl⟩ := h
+      obtain ⟨e1, n1⟩ := splitLast_sound 58 v msg tgt h1
+      obtain ⟨e2, n2⟩ := splitFirst_sound 64 _ act dt h2
+      exact ⟨tgt, e1, n1, e2, n2⟩
+
 end Cel.C7n
